@@ -222,11 +222,19 @@ IfLoop(cs, ts, fs, i, ct, cf, acc) ==
      white : Pwhite(lo, lo + K, n)            value = lo + draw
      shuf  : Pshuffle(list, repeats)          the list in the order pm[seed] (a permutation of 1..Len(list) the
                                               generator's shuffle produces), repeated; only alone under Pseed
-   composed sequentially (rseq, rn: one after the other, draws in that order) or in lock-step
-   (rtuple, rbin over two leaves: first operand draws first for every output).                      *)
-RECURSIVE DR(_, _, _, _), RSeqLoop(_, _, _, _, _, _, _, _)
-RLeafVal(q, d) == IF q.t = "rand" THEN q.l[d + 1].v ELSE q.k + d
-RLeafLen(q, N) == Min2(q.r, N)
+     rout  : Prout(f), f yields lo + rand(K) n times   value = lo + draw (a routine-backed pattern)
+   composed sequentially (rseq: one after the other, draws in that order), in lock-step (rtuple, rbin over two
+   operands - leaves or plain numbers -: first operand draws first for every output), under a unary operator (run)
+   or under Pif (rif: only the chosen operand draws).                                                 *)
+RECURSIVE DR(_, _, _, _), RSeqLoop(_, _, _, _, _, _, _, _), RIfLoop(_, _, _, _, _, _, _, _, _)
+\* rout: Prout(function) whose function yields lo + (a draw below K), n times: a routine-backed pattern - its stream is a
+\* Routine of its own, which must draw from the generator of the seeded routine it is made in (directly under Pseed,
+\* or made eagerly by an operator pattern / Pif).  An operand of the lock-step forms may also be a plain number
+\* (no draw, never ends).
+RLeafVal(q, d) == IF q.t = "rand" THEN q.l[d + 1].v ELSE IF q.t = "int" THEN q.v ELSE q.k + d
+RLeafLen(q, N) == IF q.t = "int" THEN N ELSE Min2(q.r, N)
+RRate(q) == IF q.t = "int" THEN 0 ELSE 1
+RFull(q) == IF q.t = "int" THEN INF ELSE q.r
 \* returns [s, c, ok]: values, draws consumed, ok = FALSE when the tape is too short to say
 DR(q, N, tape, off) ==
     IF N <= 0 THEN [s |-> <<>>, c |-> 0, ok |-> TRUE]
@@ -234,19 +242,35 @@ DR(q, N, tape, off) ==
               LET perm == tape  n == Len(q.l)  m == IF q.r = INF THEN N ELSE Min2(q.r * n, N) IN
               IF Len(perm) # n THEN [s |-> <<>>, c |-> 0, ok |-> FALSE]
               ELSE [s |-> [i \in 1..m |-> <<q.l[perm[((i - 1) % n) + 1]].v>>], c |-> 0, ok |-> TRUE]
-           [] q.t \in {"rand", "white"} ->
+           [] q.t \in {"rand", "white", "rout"} ->
               LET m == RLeafLen(q, N) IN
               IF off + m > Len(tape) THEN [s |-> <<>>, c |-> 0, ok |-> FALSE]
               ELSE [s |-> [i \in 1..m |-> <<RLeafVal(q, tape[off + i])>>], c |-> m, ok |-> TRUE]
            [] q.t = "rseq" -> RSeqLoop(q, N, tape, off, 0, 1, <<>>, 0)     \* Pseq(list of random leaves, reps)
-           [] q.t \in {"rtuple", "rbin"} ->     \* two leaves in lock-step, q.a draws before q.b
+           [] q.t \in {"rtuple", "rbin"} ->     \* two operands in lock-step, q.a is pulled (draws) before q.b
               LET m == Min2(RLeafLen(q.a, N), RLeafLen(q.b, N))
-                  extra == IF m < N /\ q.a.r > m THEN 1 ELSE 0   \* a drew once more before b ended
-              IN IF off + 2 * m + extra > Len(tape) THEN [s |-> <<>>, c |-> 0, ok |-> FALSE]
+                  ra == RRate(q.a)  per == RRate(q.a) + RRate(q.b)
+                  extra == IF m < N /\ RFull(q.a) > m THEN ra ELSE 0   \* a was pulled once more before b ended
+              IN IF off + per * m + extra > Len(tape) THEN [s |-> <<>>, c |-> 0, ok |-> FALSE]
                  ELSE [s |-> [i \in 1..m |->
-                                LET x == RLeafVal(q.a, tape[off + 2 * i - 1]) y == RLeafVal(q.b, tape[off + 2 * i]) IN
+                                LET x == RLeafVal(q.a, IF ra = 1 THEN tape[off + per * (i - 1) + 1] ELSE 0)
+                                    y == RLeafVal(q.b, IF RRate(q.b) = 1 THEN tape[off + per * (i - 1) + ra + 1] ELSE 0) IN
                                 IF q.t = "rtuple" THEN MkTuple(<< <<x>>, <<y>> >>) ELSE <<F2(q.f, x, y)>>],
-                       c |-> 2 * m + extra, ok |-> TRUE]
+                       c |-> per * m + extra, ok |-> TRUE]
+           [] q.t = "run" ->                    \* unary operator over a leaf
+              LET d == DR(q.a, N, tape, off) IN [s |-> [i \in 1..Len(d.s) |-> <<F1(q.f, d.s[i][1])>>], c |-> d.c, ok |-> d.ok]
+           [] q.t = "rif" ->                    \* Pif(condition = a (no draws), b, c): the chosen operand is pulled, in that order
+              LET cs == S(q.a, N) IN
+              IF ~cs.ok \/ ~AllNum(cs.s) THEN [s |-> <<>>, c |-> 0, ok |-> FALSE] ELSE RIfLoop(q, cs.s, tape, off, 1, 0, 0, 0, <<>>)
+\* i: next condition value; nb, nc: values taken from b / c so far; c: draws so far
+RIfLoop(q, cs, tape, off, i, nb, nc, c, acc) ==
+    IF i > Len(cs) THEN [s |-> acc, c |-> c, ok |-> TRUE]
+    ELSE LET x == IF cs[i][1] # 0 THEN q.b ELSE q.c
+             taken == IF cs[i][1] # 0 THEN nb ELSE nc IN
+         IF taken >= RFull(x) THEN [s |-> acc, c |-> c, ok |-> TRUE]             \* the chosen operand has ended
+         ELSE IF RRate(x) = 1 /\ off + c + 1 > Len(tape) THEN [s |-> acc, c |-> c, ok |-> FALSE]
+         ELSE RIfLoop(q, cs, tape, off, i + 1, IF cs[i][1] # 0 THEN nb + 1 ELSE nb, IF cs[i][1] # 0 THEN nc ELSE nc + 1,
+                      c + RRate(x), Append(acc, <<RLeafVal(x, IF RRate(x) = 1 THEN tape[off + c + 1] ELSE 0)>>))
 RSeqLoop(q, N, tape, off, j, i, acc, c) ==
     IF Len(acc) >= N \/ j >= q.r THEN [s |-> Take(acc, N), c |-> c, ok |-> TRUE]
     ELSE LET d == DR(q.l[i], N - Len(acc), tape, off + c) n == Len(q.l) IN
